@@ -1,4 +1,6 @@
 (* C04 — resource ledger conservation: nothing leaks, nothing is double-counted.
+   (follows /repo 0f42ab1: the findings FA, FA2, FB, FC, FC2, FD-load, FE, FF, FH, FI are repaired there and
+   their refuted statements are theorems here.)
    Only statements; proofs are in Proofs/ResP*.v and Proofs/WorkerP*.v. *)
 From Coq Require Import ZArith Bool List.
 Import ListNotations.
@@ -23,11 +25,16 @@ Theorem C04_res_nonneg : forall v ops, nonneg_vec v -> Forall rop_nonneg ops ->
 Proof. exact ledger_nonneg. Qed.
 Print Assumptions C04_res_nonneg.
 
-(* a refused allocate_multiple changes NOTHING (available cells, totals, allocation dict) *)
+(* ... for ALL histories, since a negative quantity is refused (/repo 84d7416; was finding FH) *)
+Theorem C04_res_nonneg_all : forall v ops, nonneg_vec v -> nonneg_vec (r_avail (r_run ops (r_new v))).
+Proof. exact ledger_nonneg_all. Qed.
+Print Assumptions C04_res_nonneg_all.
+
+(* a refused allocate_multiple changes NOTHING (available cells, totals, allocation dict); no side
+   condition any more (/repo be1cb9f) *)
 Theorem C04_res_refusal : forall R req c R' e,
-  Inv_ledger R -> Dict_ok R -> al_find c (r_allocs R) <> Some [] ->
-  r_allocate_multiple R req c = (R', Err e) -> R' = R.
-Proof. exact allocate_multiple_refusal. Qed.
+  Inv_ledger R -> Dict_ok R -> r_allocate_multiple R req c = (R', Err e) -> R' = R.
+Proof. exact allocate_multiple_refusal_any. Qed.
 Print Assumptions C04_res_refusal.
 
 (* when nothing is allocated every cell is back at its configured total *)
@@ -54,6 +61,10 @@ Theorem C04_worker_nonneg : forall id v ops, nonneg_vec v -> Forall (wop_req_ok 
 Proof. exact worker_nonneg. Qed.
 Print Assumptions C04_worker_nonneg.
 
+Theorem C04_worker_nonneg_all : forall id v ops, nonneg_vec v -> nonneg_vec (r_avail (w_res (w_run ops (w_new id v)))).
+Proof. exact worker_nonneg_all. Qed.
+Print Assumptions C04_worker_nonneg_all.
+
 (* ... and for every history of place (every branch) / remove / load / evict / step on a WorkerPool,
    for every worker of the pool *)
 Theorem C04_pool_conservation : forall ops P,
@@ -69,7 +80,16 @@ Theorem C04_pool_nonneg : forall ops P,
 Proof. exact pool_nonneg. Qed.
 Print Assumptions C04_pool_nonneg.
 
-(* ---- who holds what, on every worker state reachable by operations whose placements and loads are
+Theorem C04_pool_nonneg_all : forall ops P,
+  Forall (fun W => Nonneg (w_res W)) (p_workers P) ->
+  Forall (fun W => nonneg_vec (r_avail (w_res W))) (p_workers (p_run ops P)).
+Proof. exact pool_nonneg_all. Qed.
+Print Assumptions C04_pool_nonneg_all.
+
+(* ---- who holds what, on EVERY worker state reachable by operations (wop_ok only asks that a profile is
+   not loaded where it is already loaded - finding FG is not repaired - and that a batch identifier
+   names one strategy object); placements of resident tasks, empty or negative requests are all covered ----
+   (older comment:) who holds what, on every worker state reachable by operations whose placements and loads are
    fresh (the task / profile is not already resident there) and whose requests are non-negative and
    ask for something; tbl is the table of the batch strategies in use (one object per identifier) ---- *)
 Theorem C04_worker_invariant : forall tbl id v w, NoDup (map fst v) -> nonneg_vec v ->
@@ -107,6 +127,15 @@ Theorem C04_worker_remove_all : forall tbl w, WInv tbl w ->
 Proof. exact winv_empty_full. Qed.
 Print Assumptions C04_worker_remove_all.
 
+(* removing a resident task / evicting a loaded profile always succeeds (was finding FB) *)
+Theorem C04_worker_remove_resident_ok : forall tbl t w, WInv tbl w -> zfind t (w_placed w) <> None -> snd (w_remove t w) = Ok tt.
+Proof. exact w_remove_resident_ok. Qed.
+Print Assumptions C04_worker_remove_resident_ok.
+Theorem C04_worker_evict_loaded_ok : forall tbl p w, WInv tbl w ->
+  zfind p (w_avail_prof w) <> None \/ zfind p (w_pend_prof w) <> None -> snd (w_evict p w) = Ok tt.
+Proof. exact w_evict_loaded_ok. Qed.
+Print Assumptions C04_worker_evict_loaded_ok.
+
 (* C01, worker half (a corollary of the ledger): what the residents demand is exactly what the ledger
    has allocated, so it never exceeds the configured capacity, for every resource name *)
 Theorem C04_worker_demand_is_allocated : forall tbl w n, WInv tbl w ->
@@ -141,6 +170,11 @@ Print Assumptions C04_pool_place_refusal.
 Theorem C04_pool_remove_refusal : forall tbl t P e, PInv tbl P -> snd (p_remove t P) = Err e -> fst (p_remove t P) = P.
 Proof. intros tbl t P e HI. apply (proj2 (pinv_remove tbl t P HI)). Qed.
 Print Assumptions C04_pool_remove_refusal.
+(* a refused pool-wide load_profile changes nothing (/repo 0f42ab1; was finding FD) *)
+Theorem C04_pool_load_refusal : forall tbl p s wid P e, PInv tbl P -> pop_ok tbl P (PLoad p s wid) -> s_is_batch s = false ->
+  snd (p_load p s wid P) = Err e -> fst (p_load p s wid P) = P.
+Proof. exact pool_load_refusal. Qed.
+Print Assumptions C04_pool_load_refusal.
 (* C01, pool half: no worker of a reachable pool is oversubscribed; a task is resident on at most one worker *)
 Theorem C04_pool_no_oversubscription : forall tbl P, PInv tbl P ->
   (forall W n, In W (p_workers P) -> demand_name W n <= cap_name W n) /\
@@ -159,7 +193,7 @@ Theorem C04_fit_never_refused : forall R req c R' e, Nonneg R -> nonneg_vec req 
 Proof. exact fit_never_refused. Qed.
 Print Assumptions C04_fit_never_refused.
 Theorem C04_worker_fit_place_succeeds : forall t s w, Nonneg (w_res w) -> nonneg_vec (s_req s) ->
-  r_gt (w_res w) (s_req s) = true ->
+  r_gt (w_res w) (s_req s) = true -> zfind t (w_placed w) = None ->
   (s_is_batch s = true -> 1 <= s_bsize s /\ zfind (s_id s) (w_batches w) = None) ->
   snd (w_place t s w) = Ok tt.
 Proof. exact w_fit_place_succeeds. Qed.
@@ -175,34 +209,45 @@ Theorem C04_per_key_not_success_refuted :
 Proof. exact per_key_not_success_refuted. Qed.
 Print Assumptions C04_per_key_not_success_refuted.
 
-(* ---- copies ---- *)
-(* a shallow copy of a ledger whose vector has no two matching cells always succeeds and has the same
-   available cells, totals, allocated sums and getters as its original *)
-Theorem C04_copy_same_getters : forall R, Inv_ledger R -> Dict_ok R -> Nonneg R -> wf_vecb (r_total R) = true ->
-  exists R', r_copy R = Ok R' /\ r_avail R' = r_avail R /\ r_total R' = r_total R /\
-             (forall P, allocs_sum P (r_allocs R') = allocs_sum P (r_allocs R)) /\
+(* ---- copies (as of /repo cd7cd87, b0287db; were findings FC, FC2, FE, FF) ---- *)
+(* a shallow copy of a ledger IS that ledger, for ANY vector: same cells, totals, allocations, getters *)
+Theorem C04_copy_same : forall R, Inv_ledger R -> Dict_ok R -> r_copy R = Ok R.
+Proof. exact copy_same. Qed.
+Print Assumptions C04_copy_same.
+Theorem C04_copy_same_getters : forall R, Inv_ledger R -> Dict_ok R ->
+  exists R', r_copy R = Ok R' /\ r_avail R' = r_avail R /\ r_total R' = r_total R /\ r_allocs R' = r_allocs R /\
              forall r, r_available R' r = r_available R r /\ r_total_q R' r = r_total_q R r /\
                        r_allocated_q R' r = r_allocated_q R r.
 Proof. exact copy_same_getters. Qed.
 Print Assumptions C04_copy_same_getters.
-(* for ANY vector, a copy that succeeds conserves over the original's totals *)
-Theorem C04_copy_conserves : forall R R', NoDup (map fst (r_total R)) -> r_copy R = Ok R' ->
+Theorem C04_copy_conserves : forall R R', Inv_ledger R -> Dict_ok R -> r_copy R = Ok R' ->
   r_total R' = r_total R /\ forall P, sumP P (r_avail R') + allocs_sum P (r_allocs R') = sumP P (r_total R).
 Proof. exact copy_conserves. Qed.
 Print Assumptions C04_copy_conserves.
+(* the copy of a worker keeps placed tasks, batches, placeholders, profiles; it satisfies the invariant of
+   its original (so everything above holds for copies and for what is done to them) and answers
+   can_accomodate_strategy as its original *)
 Theorem C04_worker_copy_shape : forall w w', w_copy w = Ok w' ->
-  w_id w' = w_id w /\ w_placed w' = w_placed w /\ w_avail_prof w' = w_avail_prof w /\ w_pend_prof w' = w_pend_prof w /\
-  w_batches w' = [] /\ r_copy (w_res w) = Ok (w_res w').
+  w_id w' = w_id w /\ w_placed w' = w_placed w /\ w_batches w' = w_batches w /\ w_btask w' = w_btask w /\
+  w_avail_prof w' = w_avail_prof w /\ map fst (w_pend_prof w') = map fst (w_pend_prof w) /\
+  r_copy (w_res w) = Ok (w_res w').
 Proof. exact w_copy_shape. Qed.
 Print Assumptions C04_worker_copy_shape.
+Theorem C04_worker_copy_invariant : forall tbl w w', WInv tbl w -> w_copy w = Ok w' -> WInv tbl w'.
+Proof. exact w_copy_winv. Qed.
+Print Assumptions C04_worker_copy_invariant.
+Theorem C04_worker_copy_fits : forall w w' s, Inv_ledger (w_res w) -> Dict_ok (w_res w) -> w_copy w = Ok w' ->
+  w_fits s w' = w_fits s w.
+Proof. exact w_copy_fits. Qed.
+Print Assumptions C04_worker_copy_fits.
 Theorem C04_worker_deepcopy_initial : forall id v ops, NoDup (map fst v) ->
   let w := w_deepcopy (w_run ops (w_new id v)) in
   w_res w = r_new v /\ w_placed w = [] /\ w_avail_prof w = [] /\ w_pend_prof w = [] /\ w_batches w = [].
 Proof. exact w_deepcopy_initial. Qed.
 Print Assumptions C04_worker_deepcopy_initial.
-(* operations on one object (other than a step, see C04_timer_aliasing_refuted) and copies leave every
-   other object of the world unchanged *)
-Theorem C04_world_independence : forall W c j a, cmd_is_step c = false -> cmd_target c <> Some j ->
+(* every operation on one object (step included: no loading timer is shared any more) and every copy leaves
+   every other object of the world unchanged *)
+Theorem C04_world_independence : forall W c j a, cmd_target c <> Some j ->
   nth_error (wo_objs W) j = Some a -> nth_error (wo_objs (fst (world_step W c))) j = Some a.
 Proof. exact world_independence. Qed.
 Print Assumptions C04_world_independence.
@@ -248,55 +293,23 @@ Theorem C04_nonvacuous_pool : exists P, p_reach ex_tbl (p_new 0 [w_new 0 ex_vec;
   List.length (p_placed P) = 2%nat /\ PInv ex_tbl (p_new 0 [w_new 0 ex_vec; w_new 1 ex_vec]).
 Proof. exact ex_pool_reach. Qed.
 Print Assumptions C04_nonvacuous_pool.
-Theorem C04_nonvacuous_copy : wf_vecb ex_vec = true /\
-  exists R', r_copy (w_res (w_run ex_ops (w_new 0 ex_vec))) = Ok R' /\ r_allocs R' <> [].
+Theorem C04_nonvacuous_copy : exists R', r_copy (w_res (w_run ex_ops (w_new 0 ex_vec))) = Ok R' /\ r_allocs R' <> [] /\
+  R' = w_res (w_run ex_ops (w_new 0 ex_vec)).
 Proof. exact ex_copy. Qed.
 Print Assumptions C04_nonvacuous_copy.
 
-(* ---- what is FALSE without the hypotheses above (same witnesses as corpus/C04, replayed on /repo) ---- *)
-Theorem C04_replace_resident_refuted :
-  exists id v ops, let w := w_run ops (w_new id v) in w_placed w = [] /\ r_allocs (w_res w) <> [].
-Proof. exact replace_resident_refuted. Qed.
-Print Assumptions C04_replace_resident_refuted.
-Theorem C04_replace_resident_pool_refuted :
-  exists P ops, let P' := p_run ops P in p_placed P' = [] /\ exists W, In W (p_workers P') /\ w_placed W <> [].
-Proof. exact replace_resident_pool_refuted. Qed.
-Print Assumptions C04_replace_resident_pool_refuted.
-Theorem C04_empty_request_refuted :
-  exists id v t s, let w := fst (w_place t s (w_new id v)) in
-    snd (w_place t s (w_new id v)) = Ok tt /\ snd (w_remove t w) = Err E_VALUE /\ w_placed (fst (w_remove t w)) <> [].
-Proof. exact empty_request_refuted. Qed.
-Print Assumptions C04_empty_request_refuted.
-Theorem C04_copy_mixed_vector_refuted : exists v ops, r_copy (r_run ops (r_new v)) = Err E_VALUE.
-Proof. exact copy_mixed_vector_refuted. Qed.
-Print Assumptions C04_copy_mixed_vector_refuted.
-Theorem C04_copy_mixed_vector_getters_refuted :
-  exists v ops R' r, let R := r_run ops (r_new v) in r_copy R = Ok R' /\ r_available R' r <> r_available R r.
-Proof. exact copy_mixed_vector_getters_refuted. Qed.
-Print Assumptions C04_copy_mixed_vector_getters_refuted.
-Theorem C04_pool_wide_load_refuted : exists P p s P' e, p_load p s None P = (P', Err e) /\ P' <> P.
-Proof. exact pool_wide_load_refuted. Qed.
-Print Assumptions C04_pool_wide_load_refuted.
-Theorem C04_timer_aliasing_refuted :
-  exists objs cs c, let W := fst (fold_left (fun Wc c => world_step (fst Wc) c) cs (mkWorld objs 1000000, 0)) in
-    nth_error (wo_objs (fst (world_step W c))) 0 <> nth_error (wo_objs W) 0 /\
-    match c with CWorker i _ => i <> O | _ => False end.
-Proof. exact timer_aliasing_refuted. Qed.
-Print Assumptions C04_timer_aliasing_refuted.
-Theorem C04_copy_drops_batch_refuted :
-  exists id v t s w', let w := fst (w_place t s (w_new id v)) in
-    w_copy w = Ok w' /\ w_fits s w = true /\ w_fits s w' = false.
-Proof. exact copy_drops_batch_refuted. Qed.
-Print Assumptions C04_copy_drops_batch_refuted.
+(* ---- what is still FALSE of /repo (witnesses in corpus/C04, replayed on every run) ---- *)
+(* FG: load_profile accepts a profile that is already available *)
 Theorem C04_double_load_refuted :
   exists id v ops, let w := w_run ops (w_new id v) in w_pend_prof w <> [] /\ r_allocs (w_res w) = [].
 Proof. exact double_load_refuted. Qed.
 Print Assumptions C04_double_load_refuted.
-Theorem C04_negative_quantity_refuted :
-  exists v ops k q, In (k, q) (r_avail (r_run ops (r_new v))) /\ q < 0.
-Proof. exact negative_quantity_refuted. Qed.
-Print Assumptions C04_negative_quantity_refuted.
-Theorem C04_refusal_empty_entry_refuted :
-  exists R req c R' e, r_allocate_multiple R req c = (R', Err e) /\ R' <> R.
-Proof. exact refusal_empty_entry_refuted. Qed.
-Print Assumptions C04_refusal_empty_entry_refuted.
+(* FD2: a pool-wide evict_profile is not atomic *)
+Theorem C04_pool_wide_evict_refuted : exists P p P' e, p_evict p None P = (P', Err e) /\ P' <> P.
+Proof. exact pool_wide_evict_refuted. Qed.
+Print Assumptions C04_pool_wide_evict_refuted.
+(* FD3: C04_pool_load_refusal needs `s_is_batch s = false`: a loading strategy that is a placed BatchStrategy
+   passes the pre-check on a full worker *)
+Theorem C04_pool_load_batch_strategy_refuted : exists P p s P' e, p_load p s None P = (P', Err e) /\ P' <> P.
+Proof. exact pool_load_batch_strategy_refuted. Qed.
+Print Assumptions C04_pool_load_batch_strategy_refuted.
